@@ -14,7 +14,7 @@ ASSUMPTIONS = [
 ]
 
 TEXT_POOL = [None, "Def", "def", " d e f ", "other"]
-UNIT_POOL = [None, "mV", "V"]
+UNIT_POOL = [None, "mV", "V", "MV"]      # units are compared exactly: mV and MV conflict
 UNC_POOL = [None, 0.5, 2, 0]
 
 
@@ -445,6 +445,12 @@ def planted_conflict_ob(v):
         elif kind == "value_origin":
             dp.value_origin = "Def"
             sp.value_origin = "other"
+    if v.bool("src_only_children"):
+        # children only the source has, placed before the matched ones: the whole tree must still be checked first
+        only = odml.Section(name="0only", type="t", parent=src)
+        only.reorder(0)
+        deep_only = odml.Section(name="0only", type="t", parent=ssecs[0])
+        odml.Property(name="0onlyprop", values=[1], parent=src).reorder(0)
     if v.bool("reorder_src"):
         ssecs[1].reorder(0)
         sprops[4].reorder(0)
